@@ -188,3 +188,125 @@ OUTSIDE = ["the limit hf/kT -> 0 as a limit", "cancellation of exp(x) - 1 in dou
 STUBS = ["exp / log -> Ackermannised uninterpreted functions with E > 0, E >= 1 + x, monotonicity, L(E(x)) = x",
          "typhon.constants h, k, c -> arbitrary positive reals"]
 ASSUMPTIONS = ["exact real arithmetic"]
+
+
+# ---- K3: Snell's law and the Fresnel coefficients (exact angle algebra) --------------------------------
+from symx import angle as AG                                  # noqa: E402
+from symx.ratfun import square, assume_nonzero_divisors       # noqa: E402
+import math                                                     # noqa: E402
+
+
+def _trig_env(ctx):
+    return patched((EM, "np", make_np(AG.np_overrides()))) if ctx.sym else patched()
+
+
+def _theta(ctx, name):
+    if ctx.sym:
+        return AG.angle(ctx, name, "deg")
+    from fractions import Fraction
+    return math.degrees(4 * math.atan(float(Fraction(ctx.values.get("tanhalf_" + name, 0)))))
+
+
+@harness("C08.snell", expect=lambda c: ["n1*sin(theta1)=n2*sin(theta2)", "nan-beyond-total-reflection"])
+def k_snell(ctx):
+    """real refractive indices: theta2 = arcsin(n1 sin(theta1) / n2) for 0 <= theta1 <= 90 degrees"""
+    n1 = ctx.real("n1", lo=0, lo_open=True)
+    n2 = ctx.real("n2", lo=0, lo_open=True)
+    th1 = _theta(ctx, "theta1")
+    if ctx.sym:
+        n1, n2 = Q.of(n1), Q.of(n2)
+        core.assume_fact((th1.sin() >= 0).t)
+        core.assume_fact((th1.cos() >= 0).t)
+    else:
+        if not (0 <= th1 <= 90):
+            raise core.Infeasible()
+    with _trig_env(ctx):
+        th2 = EM.snell(n1, n2, th1)
+    if ctx.sym:
+        s1 = th1.sin()
+        if isinstance(th2, float):          # NaN
+            ctx.check("nan-beyond-total-reflection", n1 * s1 > n2, detail="NaN although a refracted ray exists")
+            ctx.check("n1*sin(theta1)=n2*sin(theta2)", True)
+        else:
+            (name, k), = th2.coef.items()
+            d = AG.INVERSE_OF[name]
+            ctx.check("n1*sin(theta1)=n2*sin(theta2)", k == 1 and d[0] == "arcsin" and th2.unit == "deg")
+            ctx.check("n1*sin(theta1)=n2*sin(theta2)", poly_eq(d[1] * n2, n1 * s1),
+                      detail="sin(theta2) is the arcsine's argument n1 sin(theta1) / n2")
+            ctx.check("nan-beyond-total-reflection", n1 * s1 <= n2, detail="a real angle beyond total reflection")
+    else:
+        s1 = math.sin(math.radians(th1))
+        if n1 * s1 > n2 * (1 + 1e-12):
+            ctx.check("nan-beyond-total-reflection", np.isnan(th2))
+        elif n1 * s1 < n2 * (1 - 1e-12):
+            ctx.check("n1*sin(theta1)=n2*sin(theta2)", ctx.close(n1 * s1, n2 * math.sin(math.radians(float(th2))), rel=1e-9, abs_=1e-12))
+            ctx.check("nan-beyond-total-reflection", not np.isnan(th2))
+
+
+@harness("C08.snell-rejects", cases=lambda tier: ["n1<=0", "n2<=0"], expect=lambda c: ["non-positive-index-rejected"])
+def k_snell_rej(ctx):
+    bad = ctx.real("bad", hi=0)
+    good = ctx.real("good", lo=0, lo_open=True)
+    if ctx.sym:
+        bad, good = Q.of(bad), Q.of(good)
+    th1 = _theta(ctx, "theta1")
+    with _trig_env(ctx):
+        try:
+            EM.snell(bad, good, th1) if ctx.case == "n1<=0" else EM.snell(good, bad, th1)
+            ctx.fail("non-positive-index-rejected")
+        except Exception as e:      # noqa  (typhon raises a bare Exception here)
+            ctx.check("non-positive-index-rejected", "can not be <= 0" in str(e), detail=repr(e))
+
+
+@harness("C08.fresnel", cases=lambda tier: ["normal-incidence", "brewster", "bounded"],
+         expect=lambda c: {"normal-incidence": ["|Rv|=|Rh|-at-normal-incidence"], "brewster": ["Rv=0-at-the-Brewster-angle"],
+                           "bounded": ["|R|<=1"]}[c])
+def k_fresnel(ctx):
+    """real n1, n2 > 0.  With c1 = cos(theta1), c2 = cos(theta2) (both >= 0):
+    Rv = (n2 c1 - n1 c2) / (n2 c1 + n1 c2), Rh = (n1 c1 - n2 c2) / (n1 c1 + n2 c2)."""
+    what = ctx.case
+    n1 = ctx.real("n1", lo=0, lo_open=True)
+    n2 = ctx.real("n2", lo=0, lo_open=True)
+    if not ctx.sym:
+        from fractions import Fraction
+        th1 = {"normal-incidence": 0.0, "brewster": math.degrees(math.atan(n2 / n1))}.get(what)
+        if th1 is None:
+            th1 = _theta(ctx, "theta1")
+            if not (0 <= th1 <= 90) or n1 * math.sin(math.radians(th1)) >= n2:
+                raise core.Infeasible()
+        Rv, Rh = EM.fresnel(n1, n2, th1)
+        if what == "normal-incidence":
+            ctx.check("|Rv|=|Rh|-at-normal-incidence", ctx.close(abs(Rv), abs(Rh), abs_=1e-12))
+        elif what == "brewster":
+            ctx.check("Rv=0-at-the-Brewster-angle", abs(Rv) < 1e-9)
+        else:
+            ctx.check("|R|<=1", abs(Rv) <= 1 + 1e-12 and abs(Rh) <= 1 + 1e-12)
+        return
+    n1, n2 = Q.of(n1), Q.of(n2)
+    if what == "normal-incidence":
+        th1 = AG.Ang({}, "deg", {})                       # theta1 = 0
+    elif what == "brewster":
+        # tan(theta1) = n2 / n1 with theta1 in (0, 90): sin = n2 / m, cos = n1 / m, m = sqrt(n1^2 + n2^2)
+        with assume_nonzero_divisors():
+            th1 = AG.arctan(n2 / n1).rad2deg()
+    else:
+        th1 = AG.angle(ctx, "theta1", "deg")
+        core.assume_fact((th1.sin() >= 0).t)
+        core.assume_fact((th1.cos() >= 0).t)
+        ctx.assume(n1 * th1.sin() < n2)                   # below total reflection
+    with _trig_env(ctx), assume_nonzero_divisors():
+        Rv, Rh = EM.fresnel(n1, n2, th1)
+    if what == "normal-incidence":
+        ctx.check("|Rv|=|Rh|-at-normal-incidence", poly_eq(square(Rv), square(Rh)),
+                  detail="Rv^2 == Rh^2")
+    elif what == "brewster":
+        ctx.check("Rv=0-at-the-Brewster-angle", Rv == 0)
+    else:
+        ctx.check("|R|<=1", And(square(Rv) <= 1, square(Rh) <= 1))
+
+
+PLAN["quick"]["harnesses"] += ["C08.snell", "C08.snell-rejects", "C08.fresnel"]
+PLAN["thorough"]["harnesses"] += ["C08.snell", "C08.snell-rejects", "C08.fresnel"]
+BOUNDS["quick"]["snell / fresnel"] = "all real n1, n2 > 0 and all incidence angles in [0, 90] degrees (scalar arguments)"
+OUTSIDE[:] = [o for o in OUTSIDE if not o.startswith("snell")] + ["complex refractive indices in snell / fresnel"]
+STUBS.append("exact angle algebra for snell / fresnel (arcsin argument recorded; cosines of the refracted angle through its defining equations)")
